@@ -1160,7 +1160,7 @@ fn main() {
     run.set("password_pairs", json!(menu::password_pairs().iter().map(|p| p.0).collect::<Vec<_>>()));
     run.set("depth", json!(DEPTH));
     if !run.thorough {
-        run.set("quick_slice", json!(format!("all tuples with permissions=all and one cross-reference format (revision 6: every third document per configuration and password pair), plus every 97th (offset seed mod 97) of the {} remaining tuples of the thorough product", rest)));
+        run.set("quick_slice", json!(format!("all tuples with permissions=all and one cross-reference format (revision 6: every third document per configuration and password pair), plus every 97th (offset seed mod 97) of the {} remaining tuples of the thorough product; the two newer Crypt-parameter documents with three password pairs; deep-nesting family: both ladder documents x one configuration per (version, stream method, string method) x the password pairs 'distinct' and 'empty_user'; file-identifier family: page document x 8 shapes x 11 configurations x 9 password pairs (revision 6: EncryptMetadata true, three pairs); revision 6: a document re-protected with the kept state is judged but not expanded", rest)));
     }
     run.exhaustive(true);
     run.finish();
